@@ -146,11 +146,12 @@ span<const polyline::point> polyline::part::points() const
 {
 	size_t len = _part.usr;
 	const point *pts = _pts;
-	if (_part._cut) {
+	/* parts without points may carry line end information */
+	if (len && _part._cut) {
 		++pts;
 		--len;
 	}
-	if (_part._trim) {
+	if (len && _part._trim) {
 		--len;
 	}
 	return span<const point>(pts, len);
